@@ -12,7 +12,8 @@
 (*   rearm : the tokenizer function can be set again on a restored value                      *)
 (*   wide  : the value has matrix / vector parameters applied to the records: it is also       *)
 (*           exercised on 8..12 features (inp.wide = 1) so that unrolled kernels and layout-   *)
-(*           dependent code paths are reached, through every public calling form              *)
+(*           dependent code paths are reached, through every public calling form; and once     *)
+(*           more (inp.wide = 2) with every training set handed to fit in column-major order   *)
 (* Not in the catalogue, with the reason: the AppxDbscan types (aliases of the DBSCAN types  *)
 (* in the pinned tree, the appx_dbscan module is not compiled); ArgminParam and the naive-    *)
 (* Bayes class-info structs (not nameable outside their crates, observed inside their         *)
@@ -40,9 +41,9 @@ Catalogue == <<
   T("GmmCovarType", "plain", FALSE, 1, TRUE, {}, FALSE, FALSE),
   T("GmmInitMethod", "plain", FALSE, 2, TRUE, {}, FALSE, FALSE),
   T("KMeansInit", "plain", TRUE, 4, TRUE, {}, FALSE, FALSE),
-  T("KMeansParams", "params", TRUE, 6, TRUE, {}, FALSE, TRUE),
-  T("KMeansValidParams", "params", TRUE, 3, TRUE, {}, FALSE, TRUE),
-  T("KMeans", "model", TRUE, 3, TRUE, {}, FALSE, TRUE),
+  T("KMeansParams", "params", TRUE, 7, TRUE, {}, FALSE, TRUE),
+  T("KMeansValidParams", "params", TRUE, 4, TRUE, {}, FALSE, TRUE),
+  T("KMeans", "model", TRUE, 6, TRUE, {}, FALSE, TRUE),
   T("GmmParams", "params", TRUE, 4, TRUE, {}, FALSE, TRUE),
   T("GmmValidParams", "params", TRUE, 2, TRUE, {}, FALSE, TRUE),
   T("GaussianMixtureModel", "model", TRUE, 2, TRUE, {}, FALSE, TRUE),
@@ -67,13 +68,13 @@ Catalogue == <<
   T("FittedLogisticRegression", "model", TRUE, 3, TRUE, {}, FALSE, TRUE),
   T("BinaryClassLabels", "model", TRUE, 2, TRUE, {}, FALSE, FALSE),
   T("ClassLabel", "model", TRUE, 2, TRUE, {}, FALSE, FALSE),
-  T("MultiLogisticRegressionParams", "params", TRUE, 3, TRUE, {}, FALSE, TRUE),
-  T("MultiLogisticRegressionValidParams", "params", TRUE, 2, TRUE, {}, FALSE, TRUE),
-  T("MultiFittedLogisticRegression", "model", TRUE, 2, TRUE, {}, FALSE, TRUE),
+  T("MultiLogisticRegressionParams", "params", TRUE, 4, TRUE, {}, FALSE, TRUE),
+  T("MultiLogisticRegressionValidParams", "params", TRUE, 3, TRUE, {}, FALSE, TRUE),
+  T("MultiFittedLogisticRegression", "model", TRUE, 3, TRUE, {}, FALSE, TRUE),
   T("ExitReason", "plain", FALSE, 2, TRUE, {}, FALSE, FALSE),
   T("SeparatingHyperplane", "plain", TRUE, 2, TRUE, {}, FALSE, FALSE),
   T("KernelMethod", "plain", TRUE, 3, TRUE, {}, FALSE, FALSE),
-  T("Kernel", "model", TRUE, 4, TRUE, {}, FALSE, TRUE),
+  T("Kernel", "model", TRUE, 6, TRUE, {}, FALSE, TRUE),
   T("Svm.bool", "model", TRUE, 3, TRUE, {}, FALSE, TRUE),
   T("Svm.Pr", "model", TRUE, 2, TRUE, {}, FALSE, TRUE),
   T("Svm.reg", "model", TRUE, 2, TRUE, {}, FALSE, TRUE),
